@@ -1,6 +1,7 @@
 //! Correspondence harness: drives the real `server` and `iggy` crates (feature `iggy_verif`).
 //! One binary, several modes; every mode reads operation lines on stdin and answers one result
 //! line per operation on stdout (see DESIGN.md §2.2, Appendix A).
+mod journal;
 mod node;
 mod perm;
 mod perm_gen;
@@ -21,6 +22,7 @@ fn main() {
     match mode {
         "node" => rt.block_on(node::run()),
         "perm" => perm::run(&args[2..]),
+        "journal" => rt.block_on(journal::run(&args[2])),
         "hash" => {
             // one hex string per line -> xxhash32 as the server computes it (keys, named consumers)
             use std::io::{BufRead, Write};
